@@ -103,7 +103,7 @@ func c05Wire(status int, shape c05Shape, framing string, body []byte, date strin
 	for _, kv := range shape.h {
 		fmt.Fprintf(&b, "%s: %s\r\n", kv[0], kv[1])
 	}
-	fmt.Fprintf(&b, "Cache-Control: %s\r\nX-Tok: %s\r\n", ccv, tok)
+	fmt.Fprintf(&b, "Cache-Control: %s\r\nX-Tok: %s\r\nX-Withdrawn: draft\r\nX-Nc: nc\r\n", ccv, tok)
 	if shape.name != "no Date" {
 		fmt.Fprintf(&b, "Date: %s\r\n", date)
 	}
@@ -183,7 +183,7 @@ func runC05(x *mc.X) {
 	phase, curTok := "first", "tokA"
 	answerFn(w, func(o *world.Origin, c *world.Call) (*http.Response, error) {
 		if phase != "replace" && (c.Header.Get("If-None-Match") != "" || c.Header.Get("If-Modified-Since") != "") {
-			return o.Respond(c, RS{Status: 304, NoTok: true, H: H("X-Merged", "m", "Cache-Control", "max-age=1000", "X-Merged-List", "one", "X-Merged-List", "two", "X-Merged-List", "one")}), nil
+			return o.Respond(c, RS{Status: 304, NoTok: true, H: H("X-Merged", "m", "Cache-Control", "max-age=1000", "X-Merged-List", "one", "X-Merged-List", "two", "X-Merged-List", "one", "X-Withdrawn", "")}), nil
 		}
 		body := body
 		if phase == "replace" {
@@ -195,7 +195,7 @@ func runC05(x *mc.X) {
 		}
 		ccv := "max-age=1000"
 		if serve != "hit" {
-			ccv = "max-age=5, stale-while-revalidate=100000"
+			ccv = `max-age=5, stale-while-revalidate=100000, no-cache="X-Nc"` // X-Nc is not replayed without validation (C02) …
 		}
 		date := httpDate(c.At)
 		switch shape.date {
@@ -315,7 +315,10 @@ func runC05(x *mc.X) {
 			if l := got.Values("X-Merged-List"); had304 && strings.Join(l, "|") != "one|two|one" {
 				x.Failf("a field carried by the 304 on several lines is not replayed with all of them", "%s: X-Merged-List %q, the 304 carried [one two one]", what, l)
 			}
-			for _, k := range []string{"X-Merged", "X-Merged-List", "Date", "Cache-Control"} {
+			if v, present := got["X-Withdrawn"]; had304 && (!present || strings.Join(v, "|") != "") {
+				x.Failf("a field that the 304 carries with an empty value keeps its stored value", "%s: X-Withdrawn %q (present=%v), the 304 carried it empty", what, v, present)
+			}
+			for _, k := range []string{"X-Merged", "X-Merged-List", "X-Withdrawn", "Date", "Cache-Control"} {
 				got.Del(k)
 				exp.Del(k)
 			}
@@ -344,7 +347,18 @@ func runC05(x *mc.X) {
 		logObs(x, "GET (stale, served under stale-while-revalidate)", o2)
 		if o2.Err == nil && o2.Panic == nil && o2.CacheStatus == "STALE" && o2.HdrTok == "tokA" {
 			o2.Calls = nil
+			if originHdr != nil {
+				originHdr.Del("X-Nc") // … so it is absent from the stale response (not judged here)
+				o2.Header.Del("X-Nc")
+			}
 			checkHit(o2, "stale-while-revalidate response", false)
+			// … but it is still a stored field: once the response has been validated it is there again
+			world.Advance(secs(2))
+			o3 := get(w, U, "Cache-Control", "no-cache")
+			logObs(x, "GET no-cache after the background revalidation", o3)
+			if o3.Err == nil && o3.Panic == nil && o3.HdrTok == "tokA" && o3.Header.Get("X-Nc") != "nc" {
+				x.Failf("a field named by a qualified no-cache is lost from the stored response after a stale-while-revalidate serve", "validated response (%s) carries X-Nc=%q, the origin sent \"nc\"", o3.CacheStatus, o3.Header.Get("X-Nc"))
+			}
 		}
 		checkStoreNoHop()
 		x.Sample(map[string]any{"body": bodies[bi].name, "framing": framing, "header_shape": shape.name, "status": status, "backend": backend, "served_as": serve, "observed": o2.String()})
